@@ -37,6 +37,9 @@ pub struct Case {
     /// Initial contents handed to `From<Container>`.
     pub init: Vec<u8>,
     pub ops: Vec<Op>,
+    /// Additional initial contents: this many elements `i % 251` (large deques without large case files).
+    #[serde(default)]
+    pub init_fill: u32,
 }
 
 struct Stats {
@@ -185,9 +188,11 @@ fn run_typed<C>(case: &Case, inline_cap: usize) -> CaseResult
 where
     C: PushTruncateContainer<Item = u8> + Clone + Default + From<Vec<u8>>,
 {
-    let container: C = case.init.clone().into();
+    let mut init = case.init.clone();
+    init.extend((0..case.init_fill).map(|i| (i % 251) as u8));
+    let container: C = init.clone().into();
     let mut deque: SlidingDeque<C> = container.into();
-    let mut model: VecDeque<u8> = case.init.iter().copied().collect();
+    let mut model: VecDeque<u8> = init.into_iter().collect();
     let mut stats = Stats {
         pop_back_with_prefix: false,
         spilled: false,
@@ -313,6 +318,7 @@ where
                     backing,
                     init: vec![],
                     ops,
+                    init_fill: 0,
                 };
                 // Confirm through the ordinary entry point, then report.
                 let fail = match engine::guarded(&case, &check_case) {
@@ -352,7 +358,45 @@ fn case_strategy(max_ops: usize) -> impl Strategy<Value = Case> {
         prop_oneof![3 => Just(vec![]), 1 => proptest::collection::vec(any::<u8>(), 0..9)],
         proptest::collection::vec(op_strategy(), 0..max_ops),
     )
-        .prop_map(|(backing, init, ops)| Case { backing, init, ops })
+        .prop_map(|(backing, init, ops)| Case { backing, init, ops, init_fill: 0 })
+}
+
+/// Large deques (tens to hundreds of KiB of elements): consume around half, then work at both ends.
+fn large_case_strategy() -> impl Strategy<Value = Case> {
+    (
+        prop_oneof![Just(Backing::Vec), Just(Backing::Small2), Just(Backing::Small4)],
+        prop_oneof![Just(1u32 << 16), Just(1 << 17), Just((1 << 17) + 2), Just(140_000), Just(1 << 18), 60_000u32..300_000, 1000u32..70_000],
+        -3i32..=3,
+        proptest::collection::vec(
+            prop_oneof![
+                4 => Just(Op::PopBack),
+                2 => Just(Op::PopFront),
+                2 => any::<u8>().prop_map(Op::Push),
+                1 => (0u16..4).prop_map(Op::Advance),
+                1 => any::<u8>().prop_map(Op::SetBack),
+            ],
+            1..12,
+        ),
+    )
+        .prop_map(|(backing, n, d, tail)| {
+            let n = n + (n % 2); // even, so that "exactly half consumed" exists
+            let half = (n as i64 / 2 + d as i64).max(0) as u32;
+            // advance() takes a u16 here: consume in steps.
+            let mut ops = vec![];
+            let mut left = half;
+            while left > 0 {
+                let k = left.min(60_000);
+                ops.push(Op::Advance(k as u16));
+                left -= k;
+            }
+            ops.extend(tail);
+            Case {
+                backing,
+                init: vec![],
+                ops,
+                init_fill: n,
+            }
+        })
 }
 
 pub fn run(ctx: &Ctx, rep: &mut Report) {
@@ -366,6 +410,8 @@ pub fn run(ctx: &Ctx, rep: &mut Report) {
     );
     let cases = ctx.share(ctx.tier.pick(40_000, 2_000_000));
     engine::drive(ctx, rep, "random", case_strategy(200), cases, check_case);
+    let cases = ctx.share(ctx.tier.pick(1_200, 60_000));
+    engine::drive(ctx, rep, "large", large_case_strategy(), cases, check_case);
 }
 
 fn replay(_ctx: &Ctx, _group: &str, case: &Value) -> CaseResult {
@@ -375,7 +421,7 @@ fn replay(_ctx: &Ctx, _group: &str, case: &Value) -> CaseResult {
 pub fn def() -> PropDef {
     PropDef {
         id: "C15",
-        rule: "Cases are operation sequences on SlidingDeque over Vec, SmallVec<[u8;2]> and SmallVec<[u8;4]>, compared step by step with std::collections::VecDeque (return values, contiguous view, len, is_empty, front, back) plus the space bound read through the verif_rep hook. Part 1 enumerates every sequence over a 10-symbol alphabet up to max_depth by depth-first search with shared prefixes; part 2 draws random sequences of up to 200 operations (optionally starting from a pre-filled container) with proptest. Non-trivial: the sequence contains a pop_back executed while the consumed prefix is non-zero, or an inline-to-heap transition of the small-vector backing. Distinct: by enumeration for part 1, by hash of the serialised case for part 2.",
+        rule: "Cases are operation sequences on SlidingDeque over Vec, SmallVec<[u8;2]> and SmallVec<[u8;4]>, compared step by step with std::collections::VecDeque (return values, contiguous view, len, is_empty, front, back) plus the space bound read through the verif_rep hook. Part 1 enumerates every sequence over a 10-symbol alphabet up to max_depth by depth-first search with shared prefixes; part 2 draws random sequences of up to 200 operations (optionally starting from a pre-filled container) with proptest; part 3 (large) starts from 1000..300000 elements (sizes around 2^16, 2^17, 2^18), consumes half of them +-3, then pops, pushes and advances at both ends. Non-trivial: the sequence contains a pop_back executed while the consumed prefix is non-zero, or an inline-to-heap transition of the small-vector backing. Distinct: by enumeration for part 1, by hash of the serialised case for part 2.",
         assumptions: &[
             "harness built with debug assertions on, so the crate's own check_rep assertions are active",
             "VecDeque is the reference double-ended queue",
